@@ -270,6 +270,9 @@ def run(run: Run):
     run.not_decided.append("termination of the traversal (finite-graph argument over the visited set)")
     run.assume("Address objects are compared by value; the model identifies equal addresses (one wrapper per address)",
                "the successor relation is *defined* from the schema (defines_succ_* preconditions are definitional, not checked against a caller)")
+    run.native_standin("props.C16_native", "subpackage_selective",
+                       "BOUNDED: a listed rpc of a service declared in a sub-package: kept rpcs / types in pruning mode, internal marking in internal mode",
+                       group="native.C16:subpackage-service")
     run.native_standin("props.C16_native", "extended_scenarios",
                        "BOUNDED: Compute-style extended operations (operation service declared before / after the initiating service) x 5 method lists: exposed RPCs = listed "
                        "plus the polling method they need; REST library generated, service modules compile", group="native.C16:extended-operations")
